@@ -151,12 +151,7 @@ def vrt_check(I, args, callee):
             I.report('check', msg)
             raise PathEnd('violation', msg)
         return unit()
-    if I.report('check', msg, z3.Not(c.e)):
-        I.model = None
-    if not I.check(c.e):
-        raise PathEnd('violation', msg)
-    I.model = I.solver.model()
-    I.add(c.e)
+    I.require(c.e, 'check', msg, 'violation')
     return unit()
 
 
